@@ -1,23 +1,61 @@
 pub mod c09;
+pub mod c10;
+pub mod c11;
 pub mod lattice;
+pub mod paths;
+pub mod plan;
 
 use crate::runner::*;
 use serde_json::Value;
 use std::time::Instant;
 
+const A_PLAN: &[&str] = &[
+    "worlds are pure functions of the state evaluated by the harness (harness/src/world.rs); goals are metric balls around targets using the space's own distance",
+    "iteration budgets (cargo feature `verif`) replace wall-clock limits; the budget hook only counts loop iterations",
+    "tolerances as in DESIGN.md section 4",
+];
+
 /// Runs the check for one property id; returns the process exit code.
 pub fn run_property(id: &str, opts: &Opts) -> i32 {
     let t0 = Instant::now();
-    match id {
-        "C09" => {
-            let parts = vec![run_part::<c09::C09>(opts)];
-            finish(id, opts, parts, t0, &["RV magnitudes <= 1e150 (naive norm overflows above; treated as domain limit)", "tolerances as in DESIGN.md section 4"], Value::Null)
-        }
+    let (parts, assumptions, extra): (Vec<PartReport>, &[&str], Value) = match id {
+        "C01" => (vec![run_part::<paths::C01>(opts)], A_PLAN, Value::Null),
+        "C02" => (vec![run_part::<paths::C02>(opts)], A_PLAN, Value::Null),
+        "C03" => (vec![run_part::<paths::C03>(opts)], A_PLAN, Value::Null),
+        "C04" => (vec![run_part::<paths::C04>(opts)], A_PLAN, Value::Null),
+        "C05" => (vec![run_part::<paths::C05>(opts)], A_PLAN, Value::Null),
+        "C10" => (
+            vec![run_part::<c10::C10>(opts)],
+            &[
+                "unit quaternions only (the statement says 'for unit inputs'); RV magnitudes <= 1e150",
+                "where two shortest paths exist (antipodal angles / rotations at distance pi within 1e-9 / 1e-6) either is accepted and the reversal / reference comparisons are skipped",
+                "tolerances as in DESIGN.md section 4, widened by 16 ulp of the input magnitude for non-canonical angles",
+            ],
+            Value::Null,
+        ),
+        "C11" => (
+            vec![run_part::<c11::C11>(opts)],
+            &[
+                "sampling is not exercised for SO3 cones with 1e-9 <= radius < 0.05 (rejection sampler needs > 1e5 draws; liveness is outside this technique's reach)",
+                "idempotence and 'leaves satisfying states unchanged' are judged to 4 ulp per component (re-normalising a unit quaternion may move the last bit)",
+                "which admissible point enforce_bounds picks for an outside state is not judged",
+            ],
+            Value::Null,
+        ),
+        "C09" => (
+            vec![run_part::<c09::C09>(opts)],
+            &[
+                "RV magnitudes <= 1e150 (naive norm overflows above) and an absolute floor of 2e-154 per RV coordinate (squares underflow below): treated as the documented domain, not as findings",
+                "tolerances as in DESIGN.md section 4",
+            ],
+            Value::Null,
+        ),
         _ => {
             out(&format!("unknown property {id}"));
-            2
+            return 2;
         }
-    }
+    };
+    finish(id, opts, parts, t0, assumptions, extra)
 }
 
 pub fn replay(opts: &Opts, doc: &Value) -> i32 {
@@ -29,7 +67,14 @@ pub fn replay(opts: &Opts, doc: &Value) -> i32 {
             }
         };
     }
+    try_part!(paths::C01);
+    try_part!(paths::C02);
+    try_part!(paths::C03);
+    try_part!(paths::C04);
+    try_part!(paths::C05);
     try_part!(c09::C09);
+    try_part!(c10::C10);
+    try_part!(c11::C11);
     match res {
         None => {
             out("replay: no part accepts this file");
